@@ -468,7 +468,7 @@ func (e *Enc) bitop(op token.Token, x, y Term, t types.Type) Term {
 	if xConst && !yConst && op != token.AND_NOT {
 		x, y, cx, cy, xConst, yConst = y, x, cy, cx, yConst, xConst
 	}
-	if yConst && cy.Sign() >= 0 && !signed {
+	if yConst && cy.Sign() >= 0 {
 		switch op {
 		case token.AND:
 			if k, ok := isMask(cy); ok {
